@@ -606,3 +606,63 @@ func (e *Engine) finishRestore() {
 		}
 	}
 }
+
+// rowTable: a package-level slice/array literal whose elements are struct literals (rows of constants and functions).
+func (e *Engine) rowTable(g *ssa.Global) *Lit {
+	e.itabMu.Lock()
+	defer e.itabMu.Unlock()
+	if e.rowTabs == nil {
+		e.rowTabs = map[*ssa.Global]*Lit{}
+	}
+	if l, ok := e.rowTabs[g]; ok {
+		return l
+	}
+	var out *Lit
+	if g.Pkg != nil && core.InModule(g.Pkg.Pkg) {
+		var elem types.Type
+		switch u := derefType(g.Type()).Underlying().(type) {
+		case *types.Slice:
+			elem = u.Elem()
+		case *types.Array:
+			elem = u.Elem()
+		}
+		if elem != nil {
+			if _, isStruct := elem.Underlying().(*types.Struct); isStruct {
+				if pk := e.prog.ByPath[g.Pkg.Pkg.Path()]; pk != nil {
+					if l, err := evalGlobal(pk, g.Name()); err == nil && l != nil && len(l.Elems) > 0 && len(l.Elems) <= 64 {
+						out = l
+					}
+				}
+			}
+		}
+	}
+	e.rowTabs[g] = out
+	return out
+}
+
+// litValue: the abstract value of a constant cell of a table row.
+func (e *Engine) litValue(l *Lit, t types.Type) AbsVal {
+	if l == nil {
+		return top
+	}
+	if l.Obj != nil {
+		if f, ok := l.Obj.(*types.Func); ok {
+			if fn := e.prog.SSA.FuncValue(f); fn != nil {
+				return AbsVal{k: vFunc, fn: fn}
+			}
+		}
+	}
+	if l.Const != nil && !l.IsBytes {
+		switch l.Const.Kind() {
+		case constant.String:
+			return AbsVal{k: vStrSet, strs: []string{constant.StringVal(l.Const)}}
+		case constant.Int:
+			if v, ok := constant.Int64Val(l.Const); ok {
+				return intVal(v)
+			}
+		case constant.Bool:
+			return boolVal(constant.BoolVal(l.Const))
+		}
+	}
+	return top
+}
